@@ -329,7 +329,20 @@ NumStringTable ==
      [x |-> <<115, 116, 114, 105, 110, 103, 40, 46, 53, 41>>,
       s |-> <<48, 46, 53>>],
      [x |-> <<115, 116, 114, 105, 110, 103, 40, 53, 46, 41>>,
-      s |-> <<53>>] >>
+      s |-> <<53>>],
+     \* a number is false iff it is zero or NaN (section 4.3): however small it is, a non-zero number is true
+     [x |-> <<115, 116, 114, 105, 110, 103, 40, 98, 111, 111, 108, 101, 97, 110, 40, 48, 46, 48, 48, 48, 48, 48, 48, 48, 48, 48, 48, 48, 48, 48, 48, 48, 49, 41, 41>>,   \* string(boolean(0.0000000000000001))
+      s |-> <<116, 114, 117, 101>>],
+     [x |-> <<115, 116, 114, 105, 110, 103, 40, 110, 111, 116, 40, 49, 32, 100, 105, 118, 32, 49, 48, 48, 48, 48, 48, 48, 48, 48, 48, 48, 48, 48, 48, 48, 48, 48, 48, 48, 48, 41, 41>>,   \* string(not(1 div 10000000000000000000))
+      s |-> <<102, 97, 108, 115, 101>>],
+     [x |-> <<115, 116, 114, 105, 110, 103, 40, 48, 46, 48, 48, 48, 48, 48, 48, 48, 48, 48, 48, 48, 48, 48, 48, 48, 49, 32, 111, 114, 32, 102, 97, 108, 115, 101, 40, 41, 41>>,   \* string(0.0000000000000001 or false())
+      s |-> <<116, 114, 117, 101>>],
+     [x |-> <<115, 116, 114, 105, 110, 103, 40, 98, 111, 111, 108, 101, 97, 110, 40, 48, 46, 51, 32, 45, 32, 40, 48, 46, 49, 32, 43, 32, 48, 46, 50, 41, 41, 41>>,   \* string(boolean(0.3 - (0.1 + 0.2)))
+      s |-> <<116, 114, 117, 101>>],
+     [x |-> <<115, 116, 114, 105, 110, 103, 40, 116, 114, 117, 101, 40, 41, 32, 61, 32, 48, 46, 48, 48, 48, 48, 48, 48, 48, 48, 48, 48, 48, 48, 48, 48, 48, 49, 41>>,   \* string(true() = 0.0000000000000001)
+      s |-> <<116, 114, 117, 101>>],
+     [x |-> <<115, 116, 114, 105, 110, 103, 40, 98, 111, 111, 108, 101, 97, 110, 40, 45, 48, 46, 48, 48, 48, 48, 48, 48, 48, 48, 48, 48, 48, 48, 48, 48, 48, 49, 41, 41>>,   \* string(boolean(-0.0000000000000001))
+      s |-> <<116, 114, 117, 101>>] >>
 
 BoolStr(b) == IF b THEN <<116, 114, 117, 101>> ELSE <<102, 97, 108, 115, 101>>
 =============================================================================
